@@ -313,7 +313,7 @@ Fixpoint ctx_append_content (fuel : nat) (ls : list (cxop * line)) (i en : Z) (s
            | (None, _) => Throw ERuntime
            | (Some (line, n), s') =>
                do ls' <- ctx_append_line ls line n;
-               ctx_append_content f ls' (i + 1)%Z en s'
+               if Z.eqb i en then Ok (ls', s') else ctx_append_content f ls' (i + 1)%Z en s'
            end
   end.
 
@@ -373,12 +373,12 @@ Definition parse_context_hunk (s : stream)
       match ctx_parse_new_range line with
       | Some (Throw e) => Throw e
       | Some (Ok (nstart, nend)) =>
-          do x <- ctx_append_content fuel [] nstart nend s2;
+          do x <- ctx_append_content fuel [] (sadd nstart 0) nend s2;
           let '(nl2, s3) := ctx_check_nonl (fst x) (snd x) in
           Ok ([], ostart, nl2, nstart, s3)
       | None =>
           do ol1 <- ctx_append_line [] line n;
-          do x <- ctx_append_content fuel ol1 (ostart + Z.of_nat (length ol1))%Z oend s2;
+          do x <- ctx_append_content fuel ol1 (sadd ostart (Z.of_nat (length ol1))) oend s2;
           let '(ol2, s3) := ctx_check_nonl (fst x) (snd x) in
           let '(l2, s4) := sget_line s3 in
           let line2 := fst (line_or_empty l2) in
@@ -394,7 +394,7 @@ Definition parse_context_hunk (s : stream)
               else if negb (looks_like_new_line line3) then Ok (ol2, ostart, [], nstart, sseek s5 pos)
               else
                 do nl1 <- ctx_append_line [] line3 n3;
-                do y <- ctx_append_content fuel nl1 (nstart + Z.of_nat (length nl1))%Z nend s5;
+                do y <- ctx_append_content fuel nl1 (sadd nstart (Z.of_nat (length nl1))) nend s5;
                 let '(nl2, s6) := ctx_check_nonl (fst y) (snd y) in
                 Ok (ol2, ostart, nl2, nstart, s6)
           end
